@@ -498,6 +498,100 @@ theorem C15_ddl_needs_admin (S : Schema) (C : List StmtCase) (cfg : Cfg) (pm : P
       have := (C15_authz s pm (kindModel C n) (tablesModel S C cfg n) hallow v hv).1
       simpa [checkFor, hvm, Check.holds] using this
 
+/-! ## multi-statement @sql requests: every statement, every usage, with the permission of ITS OWN kind -/
+
+theorem authorize_eq (S : Schema) (C : List StmtCase) (cfg : Cfg) (pm : PermMap) (s : Sess) (n : Node) :
+    authorize S C cfg pm s n = authLoop s pm (kindModel C n) (tablesModel S C cfg n) := rfl
+
+/-- a request is allowed exactly when each of its statements, taken alone, is allowed -/
+theorem C15_batch_allow_iff (S : Schema) (C : List StmtCase) (cfg : Cfg) (pm : PermMap) (s : Sess)
+    (ns : List Node) :
+    (authorizeBatch S C cfg pm s ns).2 = none ↔ ∀ n ∈ ns, (authorize S C cfg pm s n).2 = none := by
+  induction ns with
+  | nil => simp [authorizeBatch]
+  | cons n ns ih =>
+    simp only [authorizeBatch]
+    cases h : (authorize S C cfg pm s n).2 with
+    | some c => simp [h]
+    | none =>
+      simp only [List.mem_cons, forall_eq_or_imp, h, true_and]
+      rw [← ih]
+      cases (authorizeBatch S C cfg pm s ns).2 <;> simp
+
+/-- in an allowed request the checks of every statement are among the checks performed -/
+theorem batch_checks_sub (S : Schema) (C : List StmtCase) (cfg : Cfg) (pm : PermMap) (s : Sess)
+    (ns : List Node) (hallow : (authorizeBatch S C cfg pm s ns).2 = none) :
+    ∀ n ∈ ns, ∀ c ∈ (authorize S C cfg pm s n).1, c ∈ (authorizeBatch S C cfg pm s ns).1 := by
+  induction ns with
+  | nil => simp
+  | cons n ns ih =>
+    simp only [authorizeBatch] at hallow ⊢
+    cases h : (authorize S C cfg pm s n).2 with
+    | some c => simp [h] at hallow
+    | none =>
+      simp only [h] at hallow ⊢
+      have hq : (authorizeBatch S C cfg pm s ns).2 = none := by
+        cases hq : (authorizeBatch S C cfg pm s ns).2 with
+        | none => rfl
+        | some p => simp [hq] at hallow
+      intro m hm c hc
+      rcases List.mem_cons.mp hm with rfl | hm
+      · exact List.mem_append_left _ hc
+      · exact List.mem_append_right _ (ih hq m hm c hc)
+
+/-- **End to end for a multi-statement request.**  If the request is allowed then for EVERY statement in
+it, every table that statement touches was checked with a permission at least as strong as the way it is
+touched — and a written table with the permission `writePermissionForKind` gives for that statement's own
+kind (`kindModel C n`), not the kind of some other statement of the request. -/
+theorem C15_batch_sound (S : Schema) (C : List StmtCase) (cfg : Cfg) (pm : PermMap) (s : Sess)
+    (hS : schemaComplete S = true) (hC : casesComplete S C cfg = true) (ns : List Node)
+    (hstmt : ∀ n ∈ ns, (S.entry n.ty).isStmt = true ∧ WT S n)
+    (hallow : (authorizeBatch S C cfg pm s ns).2 = none) :
+    ∀ n ∈ ns, ∀ u ∈ touched n, ∃ v : Usage, v.name = u.name ∧ u.mode.rank ≤ v.mode.rank ∧
+      (checkFor pm (kindModel C n) v).holds s = true ∧
+      checkFor pm (kindModel C n) v ∈ (authorizeBatch S C cfg pm s ns).1 := by
+  intro n hn u hu
+  have hone := (C15_batch_allow_iff S C cfg pm s ns).mp hallow n hn
+  obtain ⟨v, h1, h2, h3, h4⟩ := C15_sound S C cfg pm s hS hC n (hstmt n hn).1 (hstmt n hn).2 hone u hu
+  exact ⟨v, h1, h2, h3, batch_checks_sub S C cfg pm s ns hallow n hn _ h4⟩
+
+/-- a refused request names a statement of the request and a check of that statement that really failed;
+every earlier statement was allowed on its own -/
+theorem C15_batch_deny_justified (S : Schema) (C : List StmtCase) (cfg : Cfg) (pm : PermMap) (s : Sess)
+    (ns : List Node) (i : Nat) (c : Check) (h : (authorizeBatch S C cfg pm s ns).2 = some (i, c)) :
+    c.holds s = false ∧ (∃ n, ns[i]? = some n ∧ (authorize S C cfg pm s n).2 = some c) ∧
+    ∀ j, j < i → ∀ m, ns[j]? = some m → (authorize S C cfg pm s m).2 = none := by
+  induction ns generalizing i with
+  | nil => simp [authorizeBatch] at h
+  | cons n ns ih =>
+    simp only [authorizeBatch] at h
+    cases h' : (authorize S C cfg pm s n).2 with
+    | some c0 =>
+      simp only [h', Option.some.injEq, Prod.mk.injEq] at h
+      obtain ⟨rfl, rfl⟩ := h
+      refine ⟨?_, ⟨n, by simp, h'⟩, by intro j hj; omega⟩
+      rw [authorize_eq] at h'
+      exact (C15_deny_justified s pm _ _ _ h').1
+    | none =>
+      simp only [h'] at h
+      cases hq : (authorizeBatch S C cfg pm s ns).2 with
+      | none => simp [hq] at h
+      | some p =>
+        obtain ⟨i0, c0⟩ := p
+        simp only [hq, Option.map_some, Option.some.injEq, Prod.mk.injEq] at h
+        obtain ⟨rfl, rfl⟩ := h
+        obtain ⟨g1, ⟨m, hm, g2⟩, g3⟩ := ih i0 hq
+        refine ⟨g1, ⟨m, by simpa using hm, g2⟩, ?_⟩
+        intro j hj k hk
+        cases j with
+        | zero =>
+          simp only [List.getElem?_cons_zero, Option.some.injEq] at hk
+          subst hk
+          exact h'
+        | succ j =>
+          simp only [List.getElem?_cons_succ] at hk
+          exact g3 j (by omega) k hk
+
 /-! ## witnesses: the defects the hypotheses rule out, and non-vacuity of every implication -/
 
 namespace Demo
@@ -589,5 +683,73 @@ example : (authorize S0 newCases newCfg pm
 example : baseTableName "main.secret" = "secret" ∧ baseTableName "t0" = "t0" := by decide
 /-- a tree whose `Children()` skipped a field would not be covered: completeness is a real hypothesis -/
 example : schemaComplete [⟨"UpdateStmt", true, [("Set", "SetClause")], []⟩] = false := by decide
+
+/-! ### why nothing may be carried from one statement of a request to the next
+
+`UsageWrite` stands for three different permissions (insert / update / delete) depending on the kind of the
+statement the reference came from.  A loop that remembers "this (table, usage) was allowed earlier in the
+request" and skips the lookup for it answers for the wrong permission. -/
+namespace Demo
+
+/-- the loop of authorizeStatement with a per-request memory of allowed references keyed by
+(base table name, usage mode) -/
+def authLoopMemo (s : Sess) (pm : PermMap) (kind : String) :
+    List Usage → List (String × Mode) → Option Check × List (String × Mode)
+  | [], g => (none, g)
+  | u :: us, g =>
+    let key := (baseTableName u.name, u.mode)
+    if g.contains key then authLoopMemo s pm kind us g
+    else
+      let c := checkFor pm kind u
+      if c.holds s then authLoopMemo s pm kind us (key :: g) else (some c, g)
+
+def authorizeBatchMemo (S : Schema) (C : List StmtCase) (cfg : Cfg) (pm : PermMap) (s : Sess) :
+    List Node → List (String × Mode) → Option Check
+  | [], _ => none
+  | n :: ns, g =>
+    let r := authLoopMemo s pm (kindModel C n) (tablesModel S C cfg n) g
+    match r.1 with
+    | some c => some c
+    | none => authorizeBatchMemo S C cfg pm s ns r.2
+
+def dmlCases : List StmtCase := [
+  { ty := "InsertStmt", kind := "StmtInsert", actions := [.write "Table"] },
+  { ty := "UpdateStmt", kind := "StmtUpdate", actions := [.write "Table", .read "Where", .read "Set"] },
+  { ty := "DeleteStmt", kind := "StmtDelete", actions := [.write "Table", .read "Where"] }]
+
+def pm3 : PermMap :=
+  { cases := [("StmtUpdate", "TableUpdatePermission"), ("StmtDelete", "TableDeletePermission")],
+    dflt := "TableWritePermission" }
+
+/-- `INSERT INTO t …` ; `DELETE FROM t` -/
+def insT : Node := .mk "InsertStmt" [] [("Table", [tref "t"])]
+def delT : Node := .mk "DeleteStmt" [] [("Table", [tref "t"]), ("Where", [])]
+
+/-- a caller who may insert into `t` and nothing else -/
+def insertOnly : Sess := { table := fun t p => t == "t" && p == "TableWritePermission", dsnAdmin := false }
+
+end Demo
+
+open Demo in
+/-- **Cross-statement carry-over is unsound.**  `INSERT INTO t; DELETE FROM t` from a caller holding only
+the insert permission: the code's loop refuses the request at statement 1 for the delete permission; the
+remembering loop allows it, although the DELETE alone is refused. -/
+theorem C15_batch_memo_counterexample :
+    (authorizeBatch S0 dmlCases newCfg pm3 insertOnly [insT, delT]).2
+      = some (1, .table "t" "TableDeletePermission") ∧
+    (authorize S0 dmlCases newCfg pm3 insertOnly delT).2 = some (.table "t" "TableDeletePermission") ∧
+    authorizeBatchMemo S0 dmlCases newCfg pm3 insertOnly [insT, delT] [] = none := by decide
+
+/-! non-vacuity of the batch theorems -/
+open Demo in
+example : (authorizeBatch S0 dmlCases newCfg pm3
+    { table := fun _ _ => true, dsnAdmin := false } [insT, delT]) =
+    ([.table "t" "TableWritePermission", .table "t" "TableDeletePermission"], none) := by decide
+open Demo in
+example : (authorizeBatch S0 newCases newCfg pm onlyT [upd, dropIdx]).2
+    = some (0, .table "secret" "TableReadPermission") := by decide
+open Demo in
+example : (authorizeBatch S0 newCases newCfg pm
+    { table := fun _ _ => true, dsnAdmin := false } [upd, dropIdx]).2 = some (1, .dsnAdmin) := by decide
 
 end EgoVerif.C15
